@@ -7,7 +7,7 @@ from kfv.rules import precond_rules as R
 
 TECHNIQUE = ('guard (control-dependence) analysis of every factor / inverse / gradient effect in step() and the hooks with '
              'modulo gates in term normal form; symbolic evaluation of the step counter and of the hyper-parameter state '
-             'at each second-order call; ownership (who-may-write) of the counter and of second-order slots')
+             'at each second-order call; ownership (who-may-write) of the counter and of second-order slots; cache-coherence rule (lazily cached state / dirty-flag skips)')
 EXPLANATION = (
     'For every call on a K-FAC layer in step(), _save_input and _save_grad_output the set of conditions it is '
     'control-dependent on is computed and its step-dependent part is normalised: factor effects must depend exactly on '
@@ -17,7 +17,7 @@ EXPLANATION = (
     'of step() shows old+1 at every normal exit, after its last use.  Second-order calls receive the damping property '
     'as evaluated in the state current at the call; second-order slots are written only by compute/broadcast methods, '
     'so between gates the most recent data is used.  Equality with a reference state machine on concrete histories is '
-    'not decided (it follows from the decided clauses plus the numerical properties C01/C04).')
+    'not decided (it follows from the decided clauses plus the numerical properties C01/C04). Lazily cached or skip-guarded second-order state must be keyed by damping and invalidated by every writer of its inputs (MEMO-*).')
 
 NOT_DECIDED = 'equality with a reference state machine on concrete histories'
 
